@@ -144,7 +144,7 @@ func (x *c10World) Enabled() []bfs.Op {
 	ops = append(ops, bfs.Op{Name: "List"}, bfs.Op{Name: "Signers"})
 	o("AddHardCert", "h1", "h2", "hrsa", "K2", "h3", "h1free")
 	o("AddHardCertAsAgentKey", "h1")
-	o("Add", "K2", "c2.cur", "Krsa")
+	o("Add", "K2", "c2.cur", "Krsa", "h1") // h1 can then be held in memory AND by the underlying agent
 	o("Sign", "h1", "K1", "c.cur", "hrsa", "h2", "K3", "Krsa")
 	o("SignViaSigners", "h1", "K1")
 	o("Remove", "h1", "K1", "c.cur", "K3")
@@ -351,7 +351,14 @@ func (x *c10World) applyOp(op bfs.Op) (fs []bfs.Finding) {
 				held = true
 			}
 			if held && !w.ua.Ring.Locked {
-				add("sign:held-identity-fails:"+kindY(id), fmt.Sprintf("Sign(%s) failed (%v) although the identity is held", op.Arg, r.err))
+				if inMem && !listedPlain[string(id.keyBlob)] {
+					// the certificate is held twice - in memory as a hardware certificate and by the underlying agent as an
+					// identity of its own - while the plain key is gone: the shim redirects to the plain key and fails,
+					// the underlying agent alone would sign (its own key, see KNOWN_FINDINGS.txt)
+					add("sign:held-identity-fails:in-memory-and-in-agent-without-plain-key", fmt.Sprintf("Sign(%s) failed (%v): the shim redirected the request to the plain key, which is gone, although the underlying agent holds this very certificate with its private key", op.Arg, r.err))
+				} else {
+					add("sign:held-identity-fails:"+kindY(id), fmt.Sprintf("Sign(%s) failed (%v) although the identity is held", op.Arg, r.err))
+				}
 			}
 		}
 		if x.dOK && !inMem && op.Name == "Sign" && !(w.noUp && hidden(id)) {
